@@ -116,9 +116,10 @@ fn run<F: MathFunction + RenderHints>(case: &Case, cx: &mut Cx) -> CheckResult {
     let pool = make_pool(case.threads);
     let tiles = match &case.tiles {
         None => None,
-        Some(t) => Some(TileSizes::new(t).map_err(|e| {
-            Fail::new("tile-list-rejected", format!("{t:?}: {e}"))
-        })?),
+        Some(t) => match crate::p06::tile_sizes_checked(t, cx)? {
+            Some(ts) => Some(ts),
+            None => return Ok(()),
+        },
     };
     let root_tile = {
         let list: Vec<usize> = match &case.tiles {
@@ -388,7 +389,7 @@ impl Prop for P {
             shape,
             (1u32..=dim, 1u32..=dim, 1u32..=dim),
             xform_strategy(),
-            prop_oneof![1 => Just(None), 3 => tile_list_max(64).prop_map(Some)],
+            prop_oneof![3 => Just(None), 9 => tile_list_max(64).prop_map(Some), 1 => crate::p06::tile_list_any().prop_map(Some)],
             any::<bool>(),
             prop_oneof![4 => Just(0u8), 2 => Just(1u8), 1 => 2u8..=5],
             prop_oneof![3 => Just(0u16), 1 => Just(300u16), 1 => Just(10u16), 2 => 1u16..=500],
